@@ -285,6 +285,9 @@ theorem inv_ev_callerEOF {s : St}  (h : Inv s) (g : evGuard s (.callerEOF) = tru
   simp only [CancelH3.apply, CancelH3.evApply, closeBody, finalErr, recvErr]
   inv_g
 
+theorem inv_ev_peerInterim {s : St} (h : Inv s) : Inv (evApply s (.peerInterim)) := by
+  simpa only [CancelH3.evApply] using h
+
 theorem inv_ev {s : St} {e : Ev} (h : Inv s) (g : evGuard s e = true) : Inv (evApply s e) := by
   cases e
   · exact inv_ev_cancel _ h g
@@ -296,6 +299,7 @@ theorem inv_ev {s : St} {e : Ev} (h : Inv s) (g : evGuard s e = true) : Inv (evA
   · exact inv_ev_peerReset h g
   · exact inv_ev_callerClose h g
   · exact inv_ev_callerEOF h g
+  · exact inv_ev_peerInterim h
 
 theorem reach_inv {s : St} (h : Reach s) : Inv s := by
   induction h with
